@@ -222,7 +222,7 @@ def whole_async(c, kind, extra):
     return True
 
 
-@harness(P, params=lambda tier: [dict(kind=k, extra=e) for k, e in (KINDS_Q if tier == "quick" else KINDS_T)], raises=(Exception,), budget_violation=True, max_steps=20000,
+@harness(P, params=lambda tier: [dict(kind=k, extra=e) for k, e in (KINDS_Q if tier == "quick" else KINDS_T)], raises=(Exception,), budget_violation=True, max_steps=20000, native_step_limit=100000,
          bounds="async client: EOF after E bytes for every E in [0, len(reply)): must raise", must_reach=())
 def eof_async(c, kind, extra):
     cls, data = _reply(c, kind, extra)
